@@ -1,0 +1,93 @@
+//! Verification hooks for `rpc::Service` (see `crate::verif`): lets an out-of-crate harness run the
+//! real `Service` / `Server::serve` / `Client::call` over a caller supplied transport and observe
+//! when handlers run. Compiled only with the `verif_hooks` feature; adds no behaviour.
+#![allow(missing_docs, clippy::missing_docs_in_private_items, unreachable_pub)]
+use std::sync::{Arc, Mutex};
+
+use zksync_concurrency::{ctx, io, limiter, scope, time};
+
+use super::{ping, Capability, Client, Handler, Rpc, Service};
+
+/// An RPC with the ping wire messages and a configurable in-flight limit.
+pub struct VRpc<const INFLIGHT: u32>;
+
+impl<const N: u32> Rpc for VRpc<N> {
+    const CAPABILITY: Capability = Capability::Ping;
+    const INFLIGHT: u32 = N;
+    const METHOD: &'static str = "verif";
+    type Req = ping::Req;
+    type Resp = ping::Resp;
+}
+
+/// (time, +1 handler entered / -1 handler left), in order.
+pub type HandlerLog = Arc<Mutex<Vec<(time::Instant, i8)>>>;
+
+struct LoggingHandler {
+    log: HandlerLog,
+    hold: time::Duration,
+}
+
+#[async_trait::async_trait]
+impl<const N: u32> Handler<VRpc<N>> for LoggingHandler {
+    fn max_req_size(&self) -> usize {
+        zksync_protobuf::kB
+    }
+    async fn handle(&self, ctx: &ctx::Ctx, req: ping::Req) -> anyhow::Result<ping::Resp> {
+        self.log.lock().unwrap().push((ctx.now(), 1));
+        if self.hold > time::Duration::ZERO {
+            ctx.sleep(self.hold).await?;
+        }
+        self.log.lock().unwrap().push((ctx.now(), -1));
+        Ok(ping::Resp(req.0))
+    }
+}
+
+/// Runs a `Service` with one server for `VRpc<N>` (rate limit `rate`) over `transport`.
+/// Every handler invocation is recorded in `log`; the handler holds the call for `hold`.
+pub async fn run_server<const N: u32, S: io::AsyncRead + io::AsyncWrite + Send>(
+    ctx: &ctx::Ctx,
+    transport: S,
+    rate: limiter::Rate,
+    hold: time::Duration,
+    log: HandlerLog,
+) -> Result<(), String> {
+    Service::new()
+        .add_server::<VRpc<N>>(ctx, LoggingHandler { log, hold }, rate)
+        .run(ctx, transport)
+        .await
+        .map_err(|e| format!("{e:#}"))
+}
+
+/// Runs a `Service` with one client for `VRpc<N>` over `transport`; `tasks` tasks issue calls
+/// back to back (as fast as the protocol lets them) until the context is cancelled.
+/// `done` receives the completion time of every successful call.
+pub async fn run_client<const N: u32, S: io::AsyncRead + io::AsyncWrite + Send>(
+    ctx: &ctx::Ctx,
+    transport: S,
+    rate: limiter::Rate,
+    tasks: usize,
+    done: Arc<Mutex<Vec<time::Instant>>>,
+) -> Result<(), String> {
+    let client = Client::<VRpc<N>>::new(ctx, rate);
+    scope::run!(ctx, |ctx, s| async {
+        for _ in 0..tasks {
+            s.spawn_bg(async {
+                let mut i = 0u8;
+                loop {
+                    i = i.wrapping_add(1);
+                    match client.call(ctx, &ping::Req([i; 32]), zksync_protobuf::kB).await {
+                        Ok(_) => done.lock().unwrap().push(ctx.now()),
+                        Err(ctx::Error::Canceled(_)) => return Ok(()),
+                        Err(ctx::Error::Internal(_)) => return Ok(()),
+                    }
+                }
+            });
+        }
+        Service::new()
+            .add_client(&client)
+            .run(ctx, transport)
+            .await
+            .map_err(|e| format!("{e:#}"))
+    })
+    .await
+}
